@@ -35,6 +35,10 @@ WL_MEMBERS = [(r'^vector\|nano::tensor_t<nano::tensor_marray_storage_t, double, 
 SFW_MEMBERS = [(r'^feature\|nano::single_feature_wlearner_t', 'sfw_feature'),
                (r'^vector\|nano::single_feature_wlearner_t', 'nv_sfw_vector')]
 STUMP_CPP = 'src/wlearner/stump.cpp'
+# loop_scalar(dataset, samples, feature, op) by its contract proved in loops.h, at the ghost position: op(nv_g, nv_v) is called
+# exactly once iff the value nv_v of sample position nv_g is finite (given).  The stub text is generated per call site from
+# the lambda's current capture list (engine/hooks.py lambda_stub_hook)
+LS_BODY = 'NV_LS_RECORD(nv_a0, nv_a1, nv_a2) if (0 <= nv_g && nv_g < nv_a1->n && NV_ISFIN(nv_v)) @CALL(nv_g, nv_v);'
 
 
 def stump_fns():
@@ -43,11 +47,11 @@ def stump_fns():
     # the lambda argument of loop_scalar is not translated: the stub calls the extracted lambda with the captured
     # variables (named literally: a renamed local breaks the C compile -> undecided, never a silent pass)
     do_predict = Fn('stump_do_predict', STUMP_CPP, 'do_predict', flt='stump_wlearner_t::do_predict', self_struct='struct nv_stump',
-                    calls=WL_CALLS + [(r'^loop_scalar\|', 'nv_loop_scalar_predict({&0}, {&1}, {2}, self, &outputs, &lo, &hi)')], **common)
+                    calls=WL_CALLS, hooks=[nvhooks.lambda_stub_hook('loop_scalar', 'nv_ls_stump_predict', ['stump_predict_lambda'], LS_BODY)], **common)
     predict_lambda = Fn('stump_predict_lambda', STUMP_CPP, 'do_predict', flt='stump_wlearner_t::do_predict', lambda_index=0,
                         captures=True, self_struct='struct nv_stump', calls=WL_CALLS, **common)
     split = Fn('stump_split', STUMP_CPP, 'split', flt='stump_wlearner_t::split',
-               calls=WL_CALLS + [(r'^loop_scalar\|', 'nv_loop_scalar_split({&0}, {&1}, {2}, &cluster, &threshold)')], **common)
+               calls=WL_CALLS, hooks=[nvhooks.lambda_stub_hook('loop_scalar', 'nv_ls_stump_split', ['stump_split_lambda'], LS_BODY)], **common)
     split_lambda = Fn('stump_split_lambda', STUMP_CPP, 'split', flt='stump_wlearner_t::split', lambda_index=0, captures=True,
                       calls=WL_CALLS, **common)
     do_split = Fn('stump_do_split', STUMP_CPP, 'do_split', flt='stump_wlearner_t::do_split', self_struct='struct nv_stump',
@@ -117,6 +121,39 @@ def lambda_owner(owner_flt, owner_name):
     return sel
 
 
+def table_closure(which):
+    """the closure object do_predict / do_split hand to process(): read from the lambda's CURRENT capture list (never pinned by
+    hand): C fields of struct nv_clo_<which> (`self` first, always), the initialiser at the call of process() and the
+    argument list with which the callbacks of process() invoke the extracted lambda body"""
+    import cxx2c
+    owner = 'do_' + which
+    d = astload.find_definition(TABLE_CPP, f'table_wlearner_t::{owner}', owner)
+    lams = astload.find_lambdas(d)
+    if len(lams) != 1:
+        raise astload.ExtractionError(f'table {owner}: {len(lams)} lambdas, expected the one handed to process()')
+    P = cxx2c.Printer('closure', TABLE_TYPES)
+    fields, init, use = ['struct nv_table* self'], ['self'], ['{0}.self']
+    for c in astload.lambda_captures(lams[0]):
+        if c['this']:
+            continue
+        vt = c['var_type'].get('qualType', '').rstrip()
+        ct = P.ctype(c['var_type'])
+        if c['byref'] and not vt.endswith('&'):
+            ct += '*'
+            init.append(f'&{c["name"]}')
+        elif not c['byref'] and vt.endswith('&'):
+            raise astload.ExtractionError(f'table {owner}: by-copy capture of the reference {c["name"]}')
+        else:
+            init.append(c['name'])
+        fields.append(f'{ct} {c["name"]}')
+        use.append('{0}.' + c['name'])
+    return dict(fields='; '.join(fields) + ';', init=', '.join(init), use=use)
+
+
+def table_defines(which):
+    return lambda: f'NV_CLO_{which.upper()}_FIELDS={table_closure(which)["fields"]}'
+
+
 def table_fns(which):
     """which = 'predict' | 'split': do_predict / do_split, its lambda, and the instantiation of process<that lambda>
     with both of its callbacks (single-label, multi-label)"""
@@ -125,13 +162,13 @@ def table_fns(which):
     clo = f'struct nv_clo_{which}'
     types = [(CLOSURE, clo)] + TABLE_TYPES
     common = dict(types=types, members=TABLE_MEMBERS, hooks=[size0_hook(TABLE_CPP)])
-    caps = '&outputs, self' if which == 'predict' else '&cluster, samples'
-    opcall = (f'table_{which}_lambda({{0}}.self, {{1}}, {{2}}, {{0}}.outputs)' if which == 'predict'
-              else f'table_{which}_lambda({{1}}, {{2}}, {{0}}.cluster, {{0}}.samples)')
+    cl = table_closure(which)
+    caps = cl['init']
+    opcall = f'table_{which}_lambda({cl["use"][0]}, {{1}}, {{2}}' + ''.join(', ' + u for u in cl['use'][1:]) + ')'
     top = Fn(f'table_{owner}', TABLE_CPP, owner, flt=f'table_wlearner_t::{owner}', self_struct='struct nv_table',
              calls=TABLE_CALLS + [(r'^process\|', f'table_process_{P}({{&0}}, {{&1}}, {{2}}, {{&3}}, {{&4}}, &({clo}){{{caps}}})')], **common)
     lam = Fn(f'table_{which}_lambda', TABLE_CPP, owner, flt=f'table_wlearner_t::{owner}', lambda_index=0, captures=True,
-             self_struct='struct nv_table' if which == 'predict' else None, calls=TABLE_CALLS, **common)
+             self_struct='struct nv_table', calls=TABLE_CALLS, **common)
     sel = lambda_owner(f'table_wlearner_t::{owner}', owner)
     proc = Fn(f'table_process_{P}', TABLE_CPP, 'process', flt='process', select=sel, kinds=('FunctionDecl',),
               calls=TABLE_CALLS + [(r'^loop_sclass\|', f'nv_loop_sclass_{P}({{&0}}, {{&1}}, {{2}}, hashes, hash2tables, op)'),
@@ -238,11 +275,11 @@ def linear_fns(cls):
     for which, nlam in (('predict', 2 if cls == 'hinge' else 1), ('split', 1)):
         owner = f'do_{which}'
         flt = f'{cls}_wlearner_t::{owner}'
-        out[which] = [Fn(f'{cls}_{owner}', cpp, owner, flt=flt, hooks=[nvhooks.lambda_call_hook('loop_scalar', f'nv_ls_{cls}_{which}')], **mk())]
+        names = [f'{cls}_{which}_lambda' + (str(k) if nlam > 1 else '') for k in range(nlam)]
+        out[which] = [Fn(f'{cls}_{owner}', cpp, owner, flt=flt, hooks=[nvhooks.lambda_stub_hook('loop_scalar', f'nv_ls_{cls}_{which}', names, LS_BODY)], **mk())]
         for k in range(nlam):
             name = f'{cls}_{which}_lambda' + (str(k) if nlam > 1 else '')
-            # the affine lambdas do not capture `this`, the hinge ones do (m_threshold, m_hinge)
-            out[which].append(Fn(name, cpp, owner, flt=flt, lambda_index=k, captures=True, **mk('struct nv_lin' if cls == 'hinge' else None)))
+            out[which].append(Fn(name, cpp, owner, flt=flt, lambda_index=k, captures=True, **mk()))
         out[which].append(Fn('sfw_feature', 'src/wlearner/single.cpp', 'feature', flt='single_feature_wlearner_t::feature',
                              self_struct='struct nv_lin', types=LIN_TYPES))
     return out
@@ -399,6 +436,57 @@ def affine_fit_fn():
     return Fn('affine_fit_feature', 'src/wlearner/affine.cpp', 'do_fit', flt='affine_wlearner_t::do_fit', lambda_index=0, captures=True, types=types, calls=calls, members=members)
 
 
+ACC_CPP = 'src/wlearner/accumulator.cpp'
+ACC_PAIR = r'std::pair<double, long>'
+ACC_TYPES = [(r'^nano::wlearner::accumulator_t$|^nano::table_wlearner_t::cache_t$', 'struct nv_accum'),
+             (r'^Eigen::ArrayWrapper<Eigen::Map<', 'struct nv_av'),
+             (r'^std::vector<' + ACC_PAIR, 'struct nv_dvec'),
+             (r'^Eigen::CwiseBinaryOp<Eigen::internal::scalar_quotient_op<double(, double)?>, (const )?Eigen::ArrayWrapper<', 'struct nv_ev')]
+ACC_CALLS = [(r'^sort\|', 'nv_dvec_sort({0}, {1}, &deltas)'), (r'^max\|const double &\(const double &, const double &\)', 'nv_max_d({0}, {1})')]
+ACC_MEMBERS = [(r'^bins\|nano::wlearner::accumulator_t', '{self}->bins'),
+               (r'^x0\|nano::wlearner::accumulator_t', '(*nv_acc_x({self}, {0}, 0))'), (r'^x1\|nano::wlearner::accumulator_t', '(*nv_acc_x({self}, {0}, 1))'),
+               (r'^x2\|nano::wlearner::accumulator_t', '(*nv_acc_x({self}, {0}, 2))'),
+               (r'^r1\|nano::wlearner::accumulator_t', 'nv_acc_r({self}, {0}, 1)'), (r'^r2\|nano::wlearner::accumulator_t', 'nv_acc_r({self}, {0}, 2)'),
+               (r'^rx\|nano::wlearner::accumulator_t', 'nv_acc_r({self}, {0}, 3)'),
+               (r'^reserve\|std::vector<' + ACC_PAIR, '@drop'), (r'^emplace_back\|std::vector<' + ACC_PAIR, 'nv_dvec_push({self}, {0}, {1}, self)'),
+               (r'^update\|nano::wlearner::accumulator_t( \*)?\|#2', 'acc_update'),
+               (r'^begin\|std::vector<' + ACC_PAIR, '((uint64_t)0)'), (r'^end\|std::vector<' + ACC_PAIR, '{self}->n')]
+
+
+TBLC_TYPES = [(r'^std::vector<' + ACC_PAIR, 'struct nv_mapv'),
+              (r'^nano::hashes_t$|^nano::tensor_t<nano::tensor_vector_storage_t, unsigned long, 1>$', 'struct nv_h1'),
+              (r'^nano::indices_t$|^nano::tensor_t<nano::tensor_vector_storage_t, long, 1>$', 'struct nv_i1'),
+              (r'^nano::tensor4d_t$|^nano::tensor_t<nano::tensor_vector_storage_t, double, 4>$', 'struct nv_tabg'),
+              (r'^nano::tensor3d_dims_t$|^nano::tensor_dims_t<3>$|^std::array<long, 3', 'int64_t'),       # target dims: their product, the number of outputs
+              (r'^nano::tensor4d_dims_t$|^nano::tensor_dims_t<4>$|^std::array<long, 4', 'struct nv_dims2'),
+              (r'^nano::wlearner_criterion$', 'int32_t'), (r'^' + ACC_PAIR + r'$|' + ACC_PAIR + r'.*value_type$', 'struct nv_gpair')]
+TBLC_CALLS = [(r'^make_score\|', 'nv_make_score({0}, {1}, {2}, {3})'), (r'^size\|.*tensor_dims_t<3', '{0}'), (r'^cat_dims\|', 'nv_cat({0}, {1})'),
+              (r'^arange\|', 'nv_arange({0}, {1})'),
+              (r'^operator\[\]\|.*\|std::vector<' + ACC_PAIR, '(*nv_mapv_at({&0}, {1}))'),
+              (r'^operator\(\)\|.*\|nano::tensor_t<nano::tensor_vector_storage_t, unsigned long, 1>', '(*nv_h1_at({&0}, {1}))'),
+              (r'^operator\(\)\|.*\|nano::tensor_t<nano::tensor_vector_storage_t, long, 1>', '(*nv_i1_at({&0}, {1}))'),
+              (r'^operator=\|.*\|nano::tensor_t<nano::tensor_vector_storage_t, unsigned long, 1>', 'nv_h1_assign({&0}, {&1})'),
+              (r'^operator=\|.*\|nano::tensor_t<nano::tensor_vector_storage_t, long, 1>', 'nv_i1_assign({&0}, {1})')]
+TBLC_MEMBERS = [(r'^tdims\|nano::wlearner::accumulator_t', '{self}->outs'), (r'^sort\|nano::wlearner::accumulator_t', 'nv_sorted({self})'),
+                (r'^score\|nano::table_wlearner_t::cache_t', 'tbl_score'),
+                (r'^resize\|nano::tensor_(t<nano::tensor_vector_storage_t, unsigned long, 1>|vector_storage_t<unsigned long, 1>)', 'nv_h1_resize({self}, {0})'),
+                (r'^resize\|nano::tensor_(t<nano::tensor_vector_storage_t, long, 1>|vector_storage_t<long, 1>)', 'nv_i1_resize({self}, {0})'),
+                (r'^resize\|nano::tensor_(t<nano::tensor_vector_storage_t, double, 4>|vector_storage_t<double, 4>)', 'nv_tab_resize({self}, {0})'),
+                (r'^array\|nano::tensor_t<nano::tensor_vector_storage_t, double, 4>', 'nv_tab_array({self}, {0})')]
+
+
+def tblc_fn(cname, name, **kw):
+    cw = eigencw.hook('struct nv_av', scalars=True)
+    return Fn(cname, TABLE_CPP, name, flt=f'cache_t::{name}', self_struct='struct nv_accum', types=TBLC_TYPES + ACC_TYPES, calls=TBLC_CALLS + ACC_CALLS,
+              members=TBLC_MEMBERS + ACC_MEMBERS, stmt_hooks=[cw], hooks=[cw.reduce_hook(), cw.value_hook('struct nv_ev')], **kw)
+
+
+def acc_fn(cname, tu, name, flt, **kw):
+    cw = eigencw.hook('struct nv_av', scalars=True)
+    return Fn(cname, tu, name, flt=flt, self_struct='struct nv_accum', types=ACC_TYPES, calls=ACC_CALLS, members=ACC_MEMBERS,
+              stmt_hooks=[cw], hooks=[cw.reduce_hook(), cw.value_hook('struct nv_ev')], **kw)
+
+
 def fit_loop_hook():
     """iterator.loop(samples, [&](feature, tnum, values) {..}) inside a do_fit: the callback is extracted separately; the stub
     gets the samples and the captured caches (named literally: the capture list of the callback is checked to contain them)"""
@@ -483,6 +571,29 @@ def hinge_lemmas():
                about='vacuity guard (must be sat)', source=src, expect='sat')]
 
 
+def accumulator_lemmas():
+    """over the reals: what ties the accumulator terms proved in accum.h to the property ("the predictions reproduce that RSS")"""
+    import os
+    src = {'file': os.path.join(astload.VERIF, 'specs/C10/spec.py')}
+    out = [VC('lemma/bin RSS, generic output: c = r1/x0, x0 > 0  =>  r2 - 2*c*r1 + x0*c^2 == r2 - r1^2/x0',
+              '(declare-const r1 Real)(declare-const r2 Real)(declare-const x0 Real)\n(define-fun c () Real (/ r1 x0))\n(assert (> x0 0.0))\n'
+              '(assert (not (= (+ (- r2 (* 2.0 c r1)) (* x0 c c)) (- r2 (/ (* r1 r1) x0)))))',
+              about='per output, the residual sum of squares of predicting the stored constant r1/x0 for the x0 samples of a bin (sum of (res - c)^2 = r2 - 2 c r1 + x0 c^2) is the summand of cache_t::score(bin)', source=src)]
+    bounded = []
+    for n in (1, 2, 3):
+        r1 = [f'a{o}' for o in range(n)]
+        r2 = [f'b{o}' for o in range(n)]
+        decl = ''.join(f'(declare-const {v} Real)' for v in r1 + r2) + '(declare-const x0 Real)\n(assert (> x0 0.0))\n'
+        add = lambda ts: ts[0] if len(ts) == 1 else '(+ ' + ' '.join(ts) + ')'
+        score = add([f'(- {b} (/ (* {a} {a}) x0))' for a, b in zip(r1, r2)])
+        gain = f'(/ (- {add([f"(* {a} {a})" for a in r1])}) x0)'
+        bounded.append(VC(f'lemma/score(bin) == rss_zero(bin) + gain(bin) for {n} output(s)', decl + f'(assert (not (= {score} (+ {add(r2)} {gain}))))',
+                          about='SUM_o (r2 - r1^2/x0) == SUM_o r2 + (-(SUM_o r1^2)/x0): score_dense and score_kbest account the same RSS (sum expanded for a bounded number of outputs)', source=src))
+    bounded.append(VC('lemma/canary: for 2 outputs the square of the sum differs from the sum of the squares', '(declare-const a0 Real)(declare-const a1 Real)\n'
+                      '(assert (not (= (* (+ a0 a1) (+ a0 a1)) (+ (* a0 a0) (* a1 a1)))))', about='the gain is a reduction of squares, not the square of a reduction (must be sat)', source=src, expect='sat'))
+    return out, bounded
+
+
 def targs(*want):
     return lambda d: astload.template_args(d) == list(want)
 
@@ -511,8 +622,9 @@ def build(tier):
     f = stump_fns()
     targets.append(Target('stump_do_split', [f['do_split'], f['split'], f['split_lambda'], f['feature']], SH))
     TH = 'specs/C10/table.h'
-    targets.append(Target('table_do_predict', table_fns('predict'), TH))
-    targets.append(Target('table_do_split', table_fns('split'), TH))
+    # (lazy: the closure layout is read from clang's AST inside the target's worker)
+    targets.append(Target('table_do_predict', lambda: table_fns('predict'), TH, enforce='table_do_predict', defines=[table_defines('predict'), table_defines('split')]))
+    targets.append(Target('table_do_split', lambda: table_fns('split'), TH, enforce='table_do_split', defines=[table_defines('predict'), table_defines('split')]))
     ftypes = [(r'^nano::hashes_t$|tensor_t<nano::tensor_vector_storage_t, unsigned long, 1>', 'struct nv_t1u'),
               (r'Matrix<unsigned long, -1, 1, 0.*>::Scalar$', 'uint64_t')]
     fk = dict(types=ftypes, uf_float=False, kinds=('FunctionDecl',),
@@ -549,9 +661,22 @@ def build(tier):
         targets.append(Target(f'{cls}_fit_sweep', [f['sweep']], 'specs/C10/fit.h'))
     AFF = 'src/wlearner/affine.cpp'
     targets.append(Target('affine_fit_feature', [affine_fit_fn()], 'specs/C10/fit_affine.h',
-                          defines=[f'bin_affine={file_constant(AFF, "bin_affine")}', f'bin_missed={file_constant(AFF, "bin_missed")}']))
+                          defines=[lambda: f'bin_affine={file_constant(AFF, "bin_affine")}', lambda: f'bin_missed={file_constant(AFF, "bin_missed")}']))
     for cls in ('stump', 'hinge', 'affine'):
         targets.append(Target(f'{cls}_do_fit', [fit_top_fn(cls)], 'specs/C10/fit_top.h'))
+    AH = 'specs/C10/accum.h'
+    targets.append(Target('tbl_score_dense', [tblc_fn('tbl_score_dense', 'score_dense'), acc_fn('tbl_score', TABLE_CPP, 'score', 'cache_t::score', ret='double')], AH))
+    targets.append(Target('tbl_score_kbest', [tblc_fn('tbl_score_kbest', 'score_kbest')], AH))
+    # (deduced `auto` return types: the C return type is given here; the returned expression itself is extracted)
+    targets.append(Target('acc_sort', [acc_fn('acc_sort', ACC_CPP, 'sort', 'accumulator_t::sort', ret='struct nv_dvec')], AH))
+    targets.append(Target('tbl_score', [acc_fn('tbl_score', TABLE_CPP, 'score', 'cache_t::score', ret='double')], AH))
+    AFFC = 'src/wlearner/affine.cpp'      # a TU that instantiates both update templates
+    npar = lambda k: (lambda d: len(astload.param_types(d)) == k and len(astload.template_args(d)) == 1)      # the instantiation, not the pattern
+    targets.append(Target('acc_update', [acc_fn('acc_update', AFFC, 'update', 'accumulator_t::update', select=npar(2))], AH))
+    targets.append(Target('acc_update_x', [acc_fn('acc_update_x', AFFC, 'update', 'accumulator_t::update', select=npar(3)),
+                                           acc_fn('acc_update', AFFC, 'update', 'accumulator_t::update', select=npar(2))], AH))
+    for nm, rt in (('rss_zero', 'double'), ('rss_constant', 'double'), ('fit_constant', 'struct nv_ev')):
+        targets.append(Target(f'acc_{nm}', [acc_fn(f'acc_{nm}', ACC_CPP, nm, f'accumulator_t::{nm}', ret=rt)], AH))
     MH = 'specs/C10/trymerge.h'
     t = try_merge_fns()
     targets.append(Target('base_try_merge', [t['base']], MH))
@@ -561,7 +686,7 @@ def build(tier):
     t = try_merge_fns()
     targets.append(Target('affine_try_merge', [t['affine'], t['helper'], t['feature']], MH))
     return {
-        'targets': targets, 'vcs': hinge_lemmas(),
+        'targets': targets, 'vcs': hinge_lemmas() + accumulator_lemmas()[0], 'bounded': accumulator_lemmas()[1],
         'decided': [
             'loop_scalar / loop_sclass / loop_mclass: op(i, value) is called only for 0 <= i < samples.size(), in increasing i, only for given values (finite / >= 0 / first label >= 0), with the value of sample i, and for every given value exactly once (ghost sample position); the enclosing functions hand the given samples and feature to select_iterator_t::loop once, with the callback overload of the right value kind',
             'stump: do_predict adds tables[value < threshold ? 0 : 1] to outputs row i exactly once for a given value and nothing for a missing one; split / do_split assign group (value < threshold ? 0 : 1) to samples(i) under the same rule with the same feature and the member threshold; cluster has dataset.samples() x 2',
@@ -577,6 +702,9 @@ def build(tier):
             'threshold sweeps of the fits (stump, hinge; dtree nodes fit stumps): cache_t::clear turns every sample position with a given value into exactly one (value, sample) entry and one contribution to the total accumulator (hinge: with that value), a missing value into one contribution to the missing residual sum and nothing else, sorts the whole vector once and leaves the left accumulator empty; in the sweep a candidate is evaluated only between two DIFFERENT consecutive sorted values v1 < v2, the left accumulator then holds exactly the sorted entries before the cut (values <= v1) and total minus left exactly the others (values >= v2), once each; a stored candidate is one consistent candidate: the score of that evaluation, this feature, a threshold with v1 < threshold <= v2 for that cut (so that `value < threshold` reproduces the partition the score was computed for; REFUTED on the current library, see the finding) which is 0.5 * (v1 + v2) bit-identically whenever that mid-point separates, coefficients computed from the accumulators of that moment (stump: left -> row 0, right -> row 1; hinge: slope of the evaluated direction -> row 0, -threshold * row 0 -> row 1, m_hinge = that direction); over the reals that threshold separates the two sides under `value < threshold` (SMT lemma)',
             'affine fit callback: every sample position is accumulated exactly once, a given value in the affine bin with its own value, a missing one in the missed bin (bin constants read from the source); the score is evaluated once, after all positions; a store is that candidate (score, feature, w() -> row 0, b() -> row 1)',
             'do_fit of stump / hinge / affine around the callback: the callback (capturing the caches) is handed to select_iterator_t::loop with the given samples once; the learner takes every field of the cache min_reduce returns (feature, tables, threshold, hinge direction) exactly when its score is not no_fit_score, and returns that score',
+            'accumulator_t over a symbolic number of outputs (ghost bin, ghost output; a reduction E.sum() is identified by its summand at the ghost output): update(vgrad, bin) adds 1 to x0(bin), subtracts the gradient from r1(bin, o) and adds its square to r2(bin, o), update(value, vgrad, bin) also value / value^2 / gradient * value to x1 / x2 / rx, and nothing outside that bin; sort() returns one (gain, bin) pair per bin with gain(bin) = -SUM_o r1(bin, o)^2 / x0(bin) (a reduction of squares), the whole vector sorted; rss_zero = SUM_o r2, rss_constant = SUM_o (r2 - r1^2 / max(1, x0)), fit_constant(o) = r1 / max(1, x0); table cache_t::score(bin) = SUM_o (r2 - r1^2 / x0); SMT: per output this summand is the RSS of predicting r1/x0 (generic output index), and score = rss_zero + gain for 1..3 outputs (bounded)',
+            'table cache_t::score_dense / score_kbest: what is stored for a better candidate is one consistent table (score of that evaluation, feature, K tables, hashes / hash2tables / coefficients of the tracked row: dense row = bin, k-best row fv = the bin sorted at position fv) whose coefficients are the optimal constants r1(bin, o) / x0(bin) of the bin the row stands for; make_score gets n = m_samples',
+            'split of stump / hinge / affine / tables: for the position i of the given list with a non-missing (active) value, cluster.assign is called exactly once with THAT sample samples(i) and the group the predictor uses for its value, nothing is assigned for a missing one; robust to the capture lists (stubs, prototypes and closure structs are generated from the lambdas as they are in the source)',
             'wlearner::make_score (index discipline only): rss is clamped below by 1e3 * epsilon and passed with (k, n) unchanged and in order to exactly the formula the criterion names (AIC / AICc / BIC uninterpreted), the plain criterion returns the clamped rss',
             'dtree do_predict: through wlearner_t::split (compatibility check, then do_split) the row i of outputs receives exactly one update, the m_tables row of the group split() reports for samples(i), and none if there is no group; depth 1: the stump_do_predict contract',
         ],
@@ -584,6 +712,7 @@ def build(tier):
             'minimum RSS over the hypothesis class (all do_fit functions, accumulators, values of the criteria): optimisation over float moment sums; accumulator_t (moment sums, cluster()) is not under contract',
             'termination of the breadth-first walks of dtree do_split / do_fit; the scores, samples and stopping rule of dtree do_fit (stump fits are opaque)',
             'the count in missing_cnt (a float sum of 1.0); the values of scores / coefficients (uninterpreted)',
+            'accumulator_t::cluster() and table cache_t::score_ksplit (k-split clustering over 2-D / 5-D tensors), cache_t::update (label -> bin), the float accumulation of rss inside score_dense / score_kbest (which gains are added is not tracked, only what is stored)',
             'numeric value of the scaled coefficients (Eigen *= is recorded, not computed); sums of merged / predicted coefficients are exact only as uninterpreted IEEE terms',
             'nano::find for multi-label values (detail::hash over the row) stays an assumed contract',
             'native replay only for the dtree groups() finding (replay/C10_replay.cpp); other counterexamples would be (value, threshold, index) tuples',
@@ -608,6 +737,7 @@ def build(tier):
             'stump_wlearner_t::split inside dtree by the contract proved in target stump_split (per position), lifted to samples: a sample gets group (value < threshold ? 0 : 1) iff it is among the samples and its value is given',
             'dtree do_predict: samples index valid dataset samples; groups of other samples are rows of m_tables (dtree_do_split.postcondition.3 at those samples); learner_t::critical_compatible throws or returns without other effects; indices_t(indices_cmap_t) copies',
             'm_tables.size() >= m_tables.size<0>() (non-empty target dims)',
+            'accumulator model: tensors tracked at one bin and one output coefficient, all other cells folded into one; Eigen coefficient-wise statements / expressions lifted by engine/eigencw (square() = coefficient times itself; E.sum() adds the coefficients of E and is determined by its summand at every position); inline accessors x0/r1/r2/.. = the member cells with the bin index in range; std::vector<pair> of sort() abstracted to the entry of the ghost bin (score_kbest: the entry at the ghost position, any other entry belongs to another bin); arange(lo, hi) = lo..hi-1; tensor = tensor copies; resize leaves the content unspecified',
             'fit sweeps: the callback runs on the cache of its thread (caches[tnum], tnum < caches.size()); one feature value per sample of the subset (select_iterator_t::loop); samples index rows of gradients (wlearner_t::fit asserts it); a cache\'s tables have 2 rows (cache_t constructor); an entry is identified by the address its sample index is read from (row views carry it); accumulator_t::update adds one contribution, clear() empties; std::sort sorts and permutes (the sweep assumes sorted, finite entries -- proved for clear() -- at the positions it reads, relative to the followed position and the neighbour); std::pair relational operators are lexicographic; min_reduce returns one of the caches',
             'dtree do_fit: stump_wlearner_t::fit either fails or stores a feature, a threshold and a 2-row tables tensor; its split() has 2 groups; append(tables, t) adds t as the last row and keeps the others; std::vector / std::deque (FIFO, below max_size()) abstracted to the ghost pair and the caches that link its members (queue invariant by assume-guarantee: every pushed cache refers to the node appended just before, asserted); registered parameter domains (max_depth, min_split in [1, 10]); default member initialisers of cache_t (m_depth 0, m_parent 0) are the zero struct, those of dtree_node_t are pinned by a static_assert',
             'std::remove_if keeps exactly the elements for which the predicate is false, in order, at positions not after their old ones; vector::erase(first, end()) truncates at first',
@@ -637,6 +767,11 @@ def replay(rp):
         # feature with tied values (real learner, RSS criterion; the clause is evaluated on its threshold and predictions)
         # (the uninterpreted mid-point not separating v1 from v2 is real for IEEE doubles: consecutive doubles 1, 1 + ulp, 1 + 2 ulp)
         scenarios = [['ties', rp['target'].split('_')[0]], ['ties', rp['target'].split('_')[0], 'adjacent']]
+    elif rp['target'] == 'hinge_do_split':
+        scenarios = [['split']]
+    elif rp['target'] in ('acc_sort', 'tbl_score', 'tbl_score_kbest', 'tbl_score_dense'):
+        # a wrong gain / score of a label set: a discrete-step table on a 2-output target whose residual sums cancel across the outputs
+        scenarios = [['dstep']]
     if scenarios is None:
         out['note'] = 'no native driver for this obligation: the replay file carries the verifier output only'
         return out
